@@ -135,3 +135,12 @@ CHECKS["C19"] = {
     "note": "Declined: encodings, file-system states and the run-time equality of file content and result (I/O behaviour). Trusted: argparse, json, open().",
 }
 NOT_APPLICABLE.pop("C19", None)
+CHECKS["C05"] = {
+    "engine": "E3 lexmodel x E4 deriv (O-case, O-comma over all fragments) + E5 rules (T-CASE-LOOKUP, T-CASE-LIT, T-CASE-VALUE, T-CASE-LINE)",
+    "category": "model_checking",
+    "technique": "static fixed point over (fragment automaton x abstractly interpreted lexer x LALR tables) with both spellings of every keyword edge; per-grammar-alternative resolution of raw-identifier comparisons in the actions; keyword-table look-up lint",
+    "text": "Keyword-case clause of the property, for all statements of the CREATE TABLE (columns, constraints, dialect clauses), CREATE SEQUENCE, ALTER TABLE and CREATE INDEX fragments: at every reachable configuration both spellings of a keyword give the same token type and lexer-flag update (hence the same derivation), values are upper-cased iff the token is not an identifier, every keyword-table look-up and every action comparison on a raw identifier position normalises case, a glued trailing comma never changes how a word is lexed. The whitespace / CRLF / blank-line / line-break clauses are NOT decided (regexes and split() over run-time text).",
+    "design_ref": "DESIGN.md section 4 C05",
+    "note": "Declined clauses: whitespace amount and kind, glued separators, CRLF, blank lines, line-break positions (L1 string machine). Trusted: PLY lexer rule ordering, CPython re.",
+}
+NOT_APPLICABLE.pop("C05", None)
